@@ -93,6 +93,27 @@ theorem C20_reduction_order_irrelevant (f : Nat → Rat) {l1 l2 : List Nat} (h :
 theorem C20_reduction_partial_sums (f : Nat → Rat) (l1 l2 : List Nat) :
     sumOver f (l1 ++ l2) = sumOver f l1 + sumOver f l2 := sumOver_append f l1 l2
 
+/-- OpenMP `reduction(+:s)` semantics (OpenMP 5.2 §5.5.8): every thread accumulates its share of the
+iterations into a private copy initialised to 0, and the copies are added to the original value at the end.
+Whatever the schedule (any split of the DoFs `1..n` into per-thread chunks, in any order — `static`, `dynamic`,
+`guided`, `auto`, `runtime`, with or without chunk size, or none), the result is the documented sum.  The
+reproducible scheme (`l_s(1,th_idx)` per thread, then `s = s + l_s(1,th_idx)` sequentially) is the same sum.
+
+PRECONDITION, evaluated on the generated PSy-layer text on every run by `omp_sharing_issue` in
+`harness/props/c20.py`: the loop that accumulates into the scalar is work-shared under a directive that
+carries `reduction(+:s)` (so that the per-thread copies exist), or it accumulates into `l_s(1,th_idx)` with
+`th_idx` private, `l_s` zeroed before and summed into `s` after the parallel region.  Without that clause the
+accumulation is a concurrent read-modify-write of a shared variable: see `C20_unprotected_accumulation_loses_updates`. -/
+theorem C20_omp_reduction_clause (f : Nat → Rat) (n : Nat) (chunks : List (List Nat))
+    (h : chunks.flatten.Perm (dofs n)) (s0 : Rat) :
+    s0 + (chunks.map (sumOver f)).sum = s0 + sumOver f (dofs n) := by
+  rw [← sumOver_flatten, sumOver_perm f h]
+
+/-- Without the clause two threads may both read the old value; one contribution is lost. -/
+theorem C20_unprotected_accumulation_loses_updates :
+    ∃ s x y : Rat, racyTwoThreads s x y ≠ s + x + y :=
+  ⟨0, 1, 1, by simp only [racyTwoThreads]; norm_num⟩
+
 /-- With the layout of the developer guide (owned DoFs first) the annexed range contains the owned range:
 computing annexed DoFs never loses an owned DoF. -/
 theorem C20_annexed_range_covers_owned (L : Layout) (h : L.owned ≤ L.annexed) (df : Nat)
@@ -131,6 +152,7 @@ example : docBound false true false = .undf ∧ docBound true false false = .own
     ∧ docBound true true false = .annexed ∧ docBound true true true = .owned := by decide
 example : visits 1 4 = [1, 2, 3, 4] := by decide
 example : [3, 1, 4, 2].Perm (visits 1 4) := by decide
+example : ([[3, 1], [], [4, 2]] : List (List Nat)).flatten.Perm (dofs 4) := by decide
 example : dofs 3 = [1, 2, 3] := by decide
 
 /-- a *wrong* lowering is refuted by the model: `X_minus_Y` with swapped operands differs from the formula -/
